@@ -23,6 +23,7 @@ type sigWorld struct {
 	in, in2, out *types.Named
 	conv         *types.Named
 	myErr        *types.Named // a named type called `error` inside a package: NOT the builtin
+	errLike      *types.Named // `type VErr error`: NOT the builtin either
 	errT         types.Type
 }
 
@@ -38,6 +39,7 @@ func newSigWorld() *sigWorld {
 	w.conv = mk(w.pkg, "Converter", types.NewInterfaceType(nil, nil))
 	w.myErr = mk(w.pkg, "error", types.NewInterfaceType(nil, nil))
 	w.errT = types.Universe.Lookup("error").Type()
+	w.errLike = mk(w.pkg, "VErr", w.errT.Underlying())
 	return w
 }
 
@@ -76,7 +78,9 @@ var paramAlphabet = []sigParam{
 	{"source", "in"}, {"other", "in2"}, {"ctx", "int"}, {"ctxB", "in"}, {"lc", "in2"}, {"c", "conv"}, {"target", "ptr"}, {"", "in"}, {"_", "int"},
 }
 
-var resultAlphabet = []string{"out", "error", "myerror", "int"}
+// errlike: a defined type whose underlying type is that of error (`type VErr error`); errlit: the literal interface{ Error() string }.
+// Neither is the built-in error.
+var resultAlphabet = []string{"out", "error", "myerror", "int", "errlike", "errlit"}
 
 func classifyParseErr(msg string) string {
 	switch {
@@ -105,7 +109,7 @@ func classifyParseErr(msg string) string {
 }
 
 func runC14(e *env) error {
-	e.rep.Rule = "cases = (parse profile, object kind, parameter list, result list): ALL parameter lists of length 0..N over a 9-letter role alphabet (source-typed, second source, regex-context name, local-context name, converter-typed, update-named, unnamed, blank) x ALL result lists of length 0..M over {Out, builtin error, package-level type named error, int} x 10 ParseOpts profiles (converter method, with regex / update / local context, extend, extend from another output package, map|FUNC, default, struct method, multi-source), plus non-function, unexported and generic objects; real method.Parse on go/types objects built in memory vs Gv.Signature.parse. quick: (<=3 params x <=2 results) and (<=2 params x 3 results); thorough: <=4 x <=3. non-trivial = at least one parameter or result; distinct = canonical request"
+	e.rep.Rule = "cases = (parse profile, object kind, parameter list, result list): ALL parameter lists of length 0..N over a 9-letter role alphabet (source-typed, second source, regex-context name, local-context name, converter-typed, update-named, unnamed, blank) x ALL result lists of length 0..M over {Out, builtin error, package-level type named error, int, a defined type with error's underlying type, the literal interface{Error() string}} x 10 ParseOpts profiles (converter method, with regex / update / local context, extend, extend from another output package, map|FUNC, default, struct method, multi-source), plus non-function, unexported and generic objects; real method.Parse on go/types objects built in memory vs Gv.Signature.parse. quick: (<=3 params x <=2 results) and (<=2 params x 3 results); thorough: <=4 x <=3. non-trivial = at least one parameter or result; distinct = canonical request"
 	w := newSigWorld()
 	maxP, maxR := 3, 2
 	if e.thorough {
@@ -154,6 +158,10 @@ func runC14(e *env) error {
 			return w.errT
 		case "myerror":
 			return w.myErr
+		case "errlike":
+			return w.errLike
+		case "errlit":
+			return w.errT.Underlying()
 		}
 		panic(k)
 	}
@@ -261,6 +269,9 @@ func runC14(e *env) error {
 			for _, rs := range resultLists {
 				if len(rs) > maxR && len(ps) > 2 {
 					continue // quick tier: 3 results only with <= 2 parameters
+				}
+				if !e.thorough && len(ps) > 2 && (strings.Contains(strings.Join(rs, ","), "errl")) {
+					continue // quick tier: the error look-alikes only with <= 2 parameters
 				}
 				one(prof, "func", ps, rs)
 			}
